@@ -62,6 +62,12 @@ func countProofs(rc *RunCtx, w *World) {
 }
 
 func genC10(tier string, seed uint64, run int) *Scenario {
+	// in-situ protocol runs and prover->wire->verifier exchanges alternate in blocks of 40 / 100
+	const insitu, trips = 40, 100
+	if k := run % (insitu + trips); k >= insitu {
+		return genProofRoundtrip(seed, (run/(insitu+trips))*trips+k-insitu)
+	}
+	run = (run/(insitu+trips))*insitu + run%(insitu+trips)
 	r := rand.New(rand.NewPCG(seedFor(seed, "C10", run, "gen"), 1))
 	// ECDSA carries most proof systems: every second run
 	ecs := []string{"ec-sign", "ec-sign", "ec-keygen", "ec-reshare"}
